@@ -122,18 +122,32 @@ Proof.
   - apply (HA (clock (getc s c)) f). rewrite Hfr. simpl. auto.
 Qed.
 
-(* the lock of a task suspended in the retry loop of wait() exists *)
+(* the lock of a task suspended inside wait() exists *)
 Theorem reach_wait_lock_inrange s t c frs k :
   reachable s -> tcont_ (gett s t) = TSusp frs k ->
-  wait_stack c (clock (getc s c)) frs -> at_wait_point frs = false ->
-  clock (getc s c) < length (locks s).
+  wait_stack c (clock (getc s c)) frs -> clock (getc s c) < length (locks s).
 Proof.
-  intros Hr Hk Hst Ha. destruct (reach_frame_kinds s t Hr) as [HP HA].
+  intros Hr Hk Hst. destruct (reach_frame_kinds s t Hr) as [HP HA].
+  pose proof (reachable_WInv s Hr) as W.
   assert (Hfr : tframes s t = frs) by (unfold tframes; now rewrite Hk).
   destruct Hst as [pc f|pc f had err body Hb|pc f err body Hb].
-  - destruct pc; discriminate.
+  - apply (w_cw W t (wait_frame pc c f) c).
+    + left. rewrite Hfr. simpl. auto.
+    + destruct pc; reflexivity.
   - apply (HP (clock (getc s c)) f had). rewrite Hfr. simpl. auto.
   - apply (HA (clock (getc s c)) f). rewrite Hfr. simpl. auto.
+Qed.
+
+(* without eager starts the frame of PriorityLock.acquire records exactly whether its task is
+   a PriorityTask, and the task is registered as waiting on that lock *)
+Theorem reach_ne_frame_had s t l f had :
+  reachable_ne s -> In (InAcquireP l f had) (tframes s t) ->
+  had = is_prio_task s t /\ In (f, t) (lwt (getl s l)) /\
+  (is_prio_task s t = true -> twaiting (gett s t) = Some l).
+Proof.
+  intros Hr Hin. pose proof (reachable_ne_WInv s Hr) as W.
+  destruct (w_frame W t l f had (or_introl Hin)) as (u & Hu & Eh & _ & Hne). specialize (Hne eq_refl).
+  subst u. split; auto. split; auto. intros Hp. apply (w_wait W l f t Hu Hp).
 Qed.
 
 (* without eager starts a PriorityTask suspended at the `await fut` of wait() is not
@@ -254,18 +268,18 @@ Qed.
 Theorem wait_pre_reach s t c frs k exc :
   reachable_ne s -> tcont_ (gett s t) = TSusp frs k ->
   let l := clock (getc s c) in
-  wait_stack c l frs -> (at_wait_point frs = true -> l < length (locks s)) ->
+  wait_stack c l frs ->
   match exc with
   | None => exists f rest v, frs = InFut f :: rest /\ fstate_ (getf s f) = FResult v
   | Some e => is_cancel e = true \/ at_wait_point frs = true
   end ->
   wait_pre (step_entry s t) t c frs (match exc with None => RVal 0 | Some e => RExc e end).
 Proof.
-  intros Hn Hk l Hst Hl Hin. pose proof (reachable_ne_reachable s Hn) as Hr.
+  intros Hn Hk l Hst Hin. pose proof (reachable_ne_reachable s Hn) as Hr.
   apply (wait_pre_of_inv s t c frs k exc); auto.
   - now apply reachable_inv.
   - eapply reach_stack_wf; eauto.
-  - destruct (at_wait_point frs) eqn:Ea; auto. eapply reach_wait_lock_inrange; eauto.
+  - eapply reach_wait_lock_inrange; eauto.
   - intros Ha _. eapply reach_ne_not_waiting; eauto.
 Qed.
 
@@ -273,7 +287,7 @@ Theorem lock_on_exit_reach :
   forall (s : st) (t c : nat) (frs : list frame) (k : reply -> coro) (exc : option exn) (s' : st) (r : lres),
     reachable_ne s -> tcont_ (gett s t) = TSusp frs k ->
     let l := clock (getc s c) in
-    wait_stack c l frs -> (at_wait_point frs = true -> l < length (locks s)) ->
+    wait_stack c l frs ->
     match exc with
     | None => exists f rest v, frs = InFut f :: rest /\ fstate_ (getf s f) = FResult v
     | Some e => is_cancel e = true \/ at_wait_point frs = true
@@ -301,8 +315,8 @@ Theorem lock_on_exit_reach :
               | Some e => RExc e | None => RVal 1 end
     end.
 Proof.
-  intros s t c frs k exc s' r Hn Hk l Hst Hl Hin se Er.
-  pose proof (wait_pre_reach s t c frs k exc Hn Hk Hst Hl Hin) as (A & B & C & D & E).
+  intros s t c frs k exc s' r Hn Hk l Hst Hin se Er.
+  pose proof (wait_pre_reach s t c frs k exc Hn Hk Hst Hin) as (A & B & C & D & E).
   fold se in A, B, C, D, E.
   assert (El : clock (getc se c) = l) by reflexivity. rewrite El in *.
   assert (Ep : forall t0, is_prio_task se t0 = is_prio_task s t0).
